@@ -78,6 +78,8 @@ DomCat(dx, C, P) ==
 
 RECURSIVE TypeOf(_, _, _), TypeSeq(_, _, _, _), TypesOf(_, _, _)
 
+(* the filter of `for x in s | c`: a Boolean over the loop variable *)
+FiltOk(x, C1, P) == ("filt" \notin DOMAIN x) \/ x.filt.e = "none" \/ Fits(TypeOf(x.filt, C1, P), BOOL)
 TypesOf(es, C, P) == [i \in 1..Len(es) |-> TypeOf(es[i], C, P)]
 
 (* the elements of { e1; ...; en }: every element must be typable; an exit `c => v` needs a  *)
@@ -177,9 +179,11 @@ TypeOf(x, C, P) ==
     [] e = "yield" -> IF Ok(C.yl) /\ Fits(TypeOf(x.v, C, P), C.yl) THEN UNIT ELSE ERR
     [] e = "while" -> IF Fits(TypeOf(x.c, C, P), BOOL) /\ Ok(TypeOf(x.body, [C EXCEPT !.loop = TRUE], P)) THEN UNIT ELSE ERR
     [] e = "for" -> IF Fits(TypeOf(x.lo, C, P), SI) /\ Fits(TypeOf(x.hi, C, P), SI)
+                       /\ FiltOk(x, BindV(C, x.x, SI, FALSE), P)
                        /\ Ok(TypeOf(x.body, BindV([C EXCEPT !.loop = TRUE], x.x, SI, FALSE), P)) THEN UNIT ELSE ERR
     [] e = "forin" -> LET s == TypeOf(x.src, C, P) IN
                       IF Ok(s) /\ s[1] \in {"list", "gen"}
+                         /\ FiltOk(x, BindV(C, x.x, s[2], FALSE), P)
                          /\ Ok(TypeOf(x.body, BindV([C EXCEPT !.loop = TRUE], x.x, s[2], FALSE), P)) THEN UNIT ELSE ERR
     [] e \in {"break", "iterate"} -> IF C.loop THEN ANY ELSE ERR
     [] e = "ret" -> IF Ok(C.ret) /\ Fits(TypeOf(x.v, C, P), C.ret) THEN ANY ELSE ERR
